@@ -761,7 +761,7 @@ func SpecContains(s string, sub string) bool { return false }
 //@ func RedisInput.syncMeta
 //@   arith int
 //@   properties C06
-//@   replay syncer_syncMeta
+//@   replay syncer_syncMeta syncer_rekeyFailedSnapshot
 //@   ghost var chCleared bool = false
 //@   requires nonnil: ri != nil && redisCli != nil
 //@   modifies heap, chCleared, outInCache, snapLeft, snapSize, outSpAsked, chId, chRight, chEmpty, refusedBySource
